@@ -17,7 +17,22 @@
        (three different variables; no other actor reads two of them in one step);
      - sendRequest's failed write: the pendingMu region and err.CompareAndSwap (sendMu is
        held throughout, so only SendCheck of other senders and reader steps can interleave,
-       and none of them touches both err and pendingOps in one step). *)
+       and none of them touches both err and pendingOps in one step).
+
+   The write path of sendRequest (internal.WriteDelimitedMessage on c.proc.stdin) can fail in
+   three ways, and the code treats all of them in the same region (remove the eagerly registered
+   entry if it is still there, CAS err, return the error):
+     - proto.Marshal fails before any byte is written (a request that cannot be encoded, e.g.
+       invalid UTF-8 in a proto3 string field)                                  -> WMarshal
+     - the pipe is closed (io.ErrClosedPipe, reported as errClosed)              -> WClosed
+     - the pipe fails with any other error after k bytes (mid-message)           -> WOther
+   Which of them can happen to request i is data of the script (`reqkind`, given at SendCheck):
+   it is decided by the request itself and by the client's stdin, not by the runner.
+
+   process.go (runInProcess / localProcess): when the client function returns - with nil or
+   with an error, at any point, also while a sender is inside its write - the deferred clean-up
+   closes its stdin, stdout and stderr and then closes `done` (ProcExit failed: BOTH values of
+   `failed` close both pipes; `failed` only decides the process result). *)
 From V Require Export Base.
 From V Require Import C10_Consts.
 Open Scope N_scope.
@@ -32,6 +47,7 @@ Inductive etag :=
 | EClosed                 (* errClosed *)
 | EDup                    (* errDuplicate *)
 | EReason (r : reason)    (* the reader's reasonForReturn *)
+| EWrite                  (* the write path's own error (marshal failure / a pipe error that is not ErrClosedPipe) *)
 | EStatus                 (* the process's own non-nil result *)
 | ETimeout.               (* process did not stop (localProcess.result deadline) *)
 
@@ -41,6 +57,16 @@ Inductive phase :=
 | Checked                 (* passed the c.err check, about to take sendMu *)
 | Writing                 (* registered, holds sendMu, inside WriteDelimitedMessage *)
 | Ret (e : option etag).  (* returned nil / an error *)
+
+(* what the write path will do with request i (decided by the request and by the client's stdin) *)
+Inductive reqkind :=
+| QOk                     (* can be marshalled; the pipe takes what the client reads *)
+| QBad                    (* proto.Marshal fails: no byte is ever written *)
+| QFailAt (k : N).        (* the client's stdin fails with an error that is not io.ErrClosedPipe after
+                             k bytes of this request (k has no meaning in the model: harness flavour) *)
+
+(* how a write failed *)
+Inductive wfail := WClosed | WMarshal | WOther.
 
 (* the reader goroutine *)
 Inductive rstate :=
@@ -62,6 +88,7 @@ Record st := mkSt {
   mu : option N;                (* holder of sendMu *)
   pending : list (name * N);    (* c.pendingOps: name -> callback of request id *)
   rname : N -> name;            (* TestName of request i *)
+  req_of : N -> reqkind;        (* what the write path does with request i *)
   phase_of : N -> phase;
   fired : list (N * outcome);   (* callback invocations, oldest first *)
   rd : rstate;
@@ -77,18 +104,19 @@ Record st := mkSt {
   wait_ret : option (option etag) }.   (* what waitForResponses returned *)
 
 Definition init : st :=
-  mkSt None false false None [] (fun _ => []) (fun _ => Idle) [] RRun []
+  mkSt None false false None [] (fun _ => []) (fun _ => QOk) (fun _ => Idle) [] RRun []
        [] true true true false false false None.
 
 Inductive action :=
-| SendCheck (i : N) (n : name)   (* sendRequest entry: the c.err check *)
+| SendCheck (i : N) (n : name) (q : reqkind)   (* sendRequest entry: the c.err check *)
 | SendLock (i : N)               (* sendMu.Lock; closedSend check; pendingMu region (register) *)
 | WriteOk (i : N)                (* the client consumed the request; return nil; unlock *)
-| WriteFail (i : N)              (* the write failed (stdin closed); pendingMu region; CAS err; unlock *)
+| WriteFail (i : N) (k : wfail)  (* the write failed; pendingMu region (remove if present); CAS err; unlock *)
 | COut (bs : bytes)              (* the client writes bytes to stdout *)
 | CCloseOut                      (* the client closes its stdout (stays alive) *)
 | CCloseIn                       (* the client closes its stdin (stays alive) *)
-| ProcExit (failed peek : bool)  (* the process ends: all its pipe ends are closed.  `peek` is a
+| ProcExit (failed peek : bool)  (* the process ends (the client function returned nil / an error): all its
+                                    pipe ends are closed, whatever `failed` is.  `peek` is a
                                     harness flavour (read the 4-byte prefix of an in-flight request
                                     first); it has no meaning in the model *)
 | ExitNotice                     (* runClient's whenDone callback *)
@@ -156,10 +184,10 @@ Definition frame (m : bytes) : bytes := be32 (N.of_nat (length m)) ++ m.
 Definition reader_stops (s : st) (r : reason) (b : bytes) : st :=
   match r with
   | REof =>
-    mkSt s.(err) s.(closed) s.(term) s.(mu) s.(pending) s.(rname) s.(phase_of) s.(fired)
+    mkSt s.(err) s.(closed) s.(term) s.(mu) s.(pending) s.(rname) s.(req_of) s.(phase_of) s.(fired)
          (RStop1 r) s.(seen) b s.(out_open) s.(in_open) s.(alive) s.(aborted) s.(noticed) s.(status) s.(wait_ret)
   | _ =>
-    mkSt (or_else s.(err) (EReason r)) s.(closed) true s.(mu) s.(pending) s.(rname) s.(phase_of) s.(fired)
+    mkSt (or_else s.(err) (EReason r)) s.(closed) true s.(mu) s.(pending) s.(rname) s.(req_of) s.(phase_of) s.(fired)
          (RStop1 r) s.(seen) b s.(out_open) s.(in_open) s.(alive) true s.(noticed) s.(status) s.(wait_ret)
   end.
 
@@ -175,7 +203,7 @@ Definition reader_step (s : st) : st :=
     | Some (n, tag) =>
       match lookup n s.(pending) with
       | Some i =>
-        mkSt s.(err) s.(closed) s.(term) s.(mu) (remove_name n s.(pending)) s.(rname) s.(phase_of)
+        mkSt s.(err) s.(closed) s.(term) s.(mu) (remove_name n s.(pending)) s.(rname) s.(req_of) s.(phase_of)
              (s.(fired) ++ [(i, OResp n tag)])
              RRun (n :: s.(seen)) rest s.(out_open) s.(in_open) s.(alive) s.(aborted) s.(noticed) s.(status) s.(wait_ret)
       | None => reader_stops s (if mem_bytes n s.(seen) then RDupResp else RUnknown) rest
@@ -185,14 +213,31 @@ Definition reader_step (s : st) : st :=
 
 Definition fail_code (r : reason) : option reason := match r with REof => None | _ => Some r end.
 
+(* ---------- the write path ---------- *)
+Definition is_ok (q : reqkind) : bool := match q with QOk => true | _ => false end.
+(* may the write of a request of kind q fail in way k?  (stdin_open: a write to the pipe can still succeed) *)
+Definition can_fail (stdin_open : bool) (q : reqkind) (k : wfail) : bool :=
+  match k, q with
+  | WMarshal, QBad => true
+  | WMarshal, _ => false
+  | WClosed, QBad => false                 (* Marshal fails before the pipe is touched *)
+  | WClosed, _ => negb stdin_open
+  | WOther, QFailAt _ => true
+  | WOther, _ => false
+  end.
+(* the error sendRequest then reports and stores: errClosed for io.ErrClosedPipe, else the error itself *)
+Definition wfail_err (k : wfail) : etag := match k with WClosed => EClosed | _ => EWrite end.
+(* the failure that ends the write of a request of kind q once the client's stdin is gone *)
+Definition wfail_for (q : reqkind) : wfail := match q with QBad => WMarshal | _ => WClosed end.
+
 (* `notice` is the value runClient's whenDone callback stores into `terminated`
    (false on the pinned tree, true after the repair) *)
 Definition step_with (notice : bool) (s : st) (a : action) : st :=
   match a with
-  | SendCheck i n =>
+  | SendCheck i n q =>
     match s.(phase_of) i with
     | Idle =>
-      mkSt s.(err) s.(closed) s.(term) s.(mu) s.(pending) (updf s.(rname) i n)
+      mkSt s.(err) s.(closed) s.(term) s.(mu) s.(pending) (updf s.(rname) i n) (updf s.(req_of) i q)
            (updf s.(phase_of) i (match s.(err) with Some e => Ret (Some e) | None => Checked end))
            s.(fired) s.(rd) s.(seen) s.(buf) s.(out_open) s.(in_open) s.(alive) s.(aborted) s.(noticed) s.(status) s.(wait_ret)
     | _ => s
@@ -202,14 +247,14 @@ Definition step_with (notice : bool) (s : st) (a : action) : st :=
     | Checked, None =>
       let n := s.(rname) i in
       if s.(closed) then
-        mkSt s.(err) s.(closed) s.(term) s.(mu) s.(pending) s.(rname) (updf s.(phase_of) i (Ret (Some EClosed)))
+        mkSt s.(err) s.(closed) s.(term) s.(mu) s.(pending) s.(rname) s.(req_of) (updf s.(phase_of) i (Ret (Some EClosed)))
              s.(fired) s.(rd) s.(seen) s.(buf) s.(out_open) s.(in_open) s.(alive) s.(aborted) s.(noticed) s.(status) s.(wait_ret)
       else match lookup n s.(pending) with
       | Some _ =>
-        mkSt s.(err) s.(closed) s.(term) s.(mu) s.(pending) s.(rname) (updf s.(phase_of) i (Ret (Some EDup)))
+        mkSt s.(err) s.(closed) s.(term) s.(mu) s.(pending) s.(rname) s.(req_of) (updf s.(phase_of) i (Ret (Some EDup)))
              s.(fired) s.(rd) s.(seen) s.(buf) s.(out_open) s.(in_open) s.(alive) s.(aborted) s.(noticed) s.(status) s.(wait_ret)
       | None =>
-        mkSt s.(err) s.(closed) s.(term) (Some i) (s.(pending) ++ [(n, i)]) s.(rname) (updf s.(phase_of) i Writing)
+        mkSt s.(err) s.(closed) s.(term) (Some i) (s.(pending) ++ [(n, i)]) s.(rname) s.(req_of) (updf s.(phase_of) i Writing)
              s.(fired) s.(rd) s.(seen) s.(buf) s.(out_open) s.(in_open) s.(alive) s.(aborted) s.(noticed) s.(status) s.(wait_ret)
       end
     | _, _ => s
@@ -217,65 +262,65 @@ Definition step_with (notice : bool) (s : st) (a : action) : st :=
   | WriteOk i =>
     match s.(phase_of) i with
     | Writing =>
-      if s.(alive) && s.(in_open) then
-        mkSt s.(err) s.(closed) s.(term) None s.(pending) s.(rname) (updf s.(phase_of) i (Ret None))
+      if s.(alive) && s.(in_open) && is_ok (s.(req_of) i) then
+        mkSt s.(err) s.(closed) s.(term) None s.(pending) s.(rname) s.(req_of) (updf s.(phase_of) i (Ret None))
              s.(fired) s.(rd) s.(seen) s.(buf) s.(out_open) s.(in_open) s.(alive) s.(aborted) s.(noticed) s.(status) s.(wait_ret)
       else s
     | _ => s
     end
-  | WriteFail i =>
+  | WriteFail i k =>
     match s.(phase_of) i with
     | Writing =>
-      if s.(in_open) then s else
+      if negb (can_fail s.(in_open) (s.(req_of) i) k) then s else
       let n := s.(rname) i in
       match lookup n s.(pending) with
       | Some _ =>
-        mkSt (or_else s.(err) EClosed) s.(closed) s.(term) None (remove_name n s.(pending)) s.(rname)
-             (updf s.(phase_of) i (Ret (Some EClosed)))
+        mkSt (or_else s.(err) (wfail_err k)) s.(closed) s.(term) None (remove_name n s.(pending)) s.(rname) s.(req_of)
+             (updf s.(phase_of) i (Ret (Some (wfail_err k))))
              s.(fired) s.(rd) s.(seen) s.(buf) s.(out_open) s.(in_open) s.(alive) s.(aborted) s.(noticed) s.(status) s.(wait_ret)
       | None =>                          (* "concurrently removed": the client did answer *)
-        mkSt s.(err) s.(closed) s.(term) None s.(pending) s.(rname) (updf s.(phase_of) i (Ret None))
+        mkSt s.(err) s.(closed) s.(term) None s.(pending) s.(rname) s.(req_of) (updf s.(phase_of) i (Ret None))
              s.(fired) s.(rd) s.(seen) s.(buf) s.(out_open) s.(in_open) s.(alive) s.(aborted) s.(noticed) s.(status) s.(wait_ret)
       end
     | _ => s
     end
   | COut bs =>
     if s.(alive) && s.(out_open) then
-      mkSt s.(err) s.(closed) s.(term) s.(mu) s.(pending) s.(rname) s.(phase_of) s.(fired) s.(rd) s.(seen)
+      mkSt s.(err) s.(closed) s.(term) s.(mu) s.(pending) s.(rname) s.(req_of) s.(phase_of) s.(fired) s.(rd) s.(seen)
            (s.(buf) ++ bs) s.(out_open) s.(in_open) s.(alive) s.(aborted) s.(noticed) s.(status) s.(wait_ret)
     else s
   | CCloseOut =>
     if s.(alive) then
-      mkSt s.(err) s.(closed) s.(term) s.(mu) s.(pending) s.(rname) s.(phase_of) s.(fired) s.(rd) s.(seen)
+      mkSt s.(err) s.(closed) s.(term) s.(mu) s.(pending) s.(rname) s.(req_of) s.(phase_of) s.(fired) s.(rd) s.(seen)
            s.(buf) false s.(in_open) s.(alive) s.(aborted) s.(noticed) s.(status) s.(wait_ret)
     else s
   | CCloseIn =>
     if s.(alive) then
-      mkSt s.(err) s.(closed) s.(term) s.(mu) s.(pending) s.(rname) s.(phase_of) s.(fired) s.(rd) s.(seen)
+      mkSt s.(err) s.(closed) s.(term) s.(mu) s.(pending) s.(rname) s.(req_of) s.(phase_of) s.(fired) s.(rd) s.(seen)
            s.(buf) s.(out_open) false s.(alive) s.(aborted) s.(noticed) s.(status) s.(wait_ret)
     else s
   | ProcExit failed _ =>
     if s.(alive) then      (* unconsumed output of an unbuffered in-process pipe is lost *)
-      mkSt s.(err) s.(closed) s.(term) s.(mu) s.(pending) s.(rname) s.(phase_of) s.(fired) s.(rd) s.(seen)
+      mkSt s.(err) s.(closed) s.(term) s.(mu) s.(pending) s.(rname) s.(req_of) s.(phase_of) s.(fired) s.(rd) s.(seen)
            [] false false false s.(aborted) s.(noticed) failed s.(wait_ret)
     else s
   | ExitNotice =>
     if negb s.(alive) && negb s.(noticed) then
-      mkSt s.(err) s.(closed) notice s.(mu) s.(pending) s.(rname) s.(phase_of) s.(fired) s.(rd) s.(seen)
+      mkSt s.(err) s.(closed) notice s.(mu) s.(pending) s.(rname) s.(req_of) s.(phase_of) s.(fired) s.(rd) s.(seen)
            s.(buf) s.(out_open) s.(in_open) s.(alive) s.(aborted) true s.(status) s.(wait_ret)
     else s
   | RStep => match s.(rd) with RRun => reader_step s | _ => s end
   | RClose =>
     match s.(rd), s.(mu) with
     | RStop1 r, None =>
-      mkSt s.(err) true s.(term) s.(mu) s.(pending) s.(rname) s.(phase_of) s.(fired) (RStop2 r) s.(seen)
+      mkSt s.(err) true s.(term) s.(mu) s.(pending) s.(rname) s.(req_of) s.(phase_of) s.(fired) (RStop2 r) s.(seen)
            s.(buf) s.(out_open) false s.(alive) s.(aborted) s.(noticed) s.(status) s.(wait_ret)
     | _, _ => s
     end
   | RDrain =>
     match s.(rd) with
     | RStop2 r =>
-      mkSt s.(err) s.(closed) s.(term) s.(mu) [] s.(rname) s.(phase_of)
+      mkSt s.(err) s.(closed) s.(term) s.(mu) [] s.(rname) s.(req_of) s.(phase_of)
            (s.(fired) ++ map (fun p => (snd p, OFail (fst p) (fail_code r))) s.(pending)) RDone s.(seen)
            s.(buf) s.(out_open) s.(in_open) s.(alive) s.(aborted) s.(noticed) s.(status) s.(wait_ret)
     | _ => s
@@ -283,17 +328,17 @@ Definition step_with (notice : bool) (s : st) (a : action) : st :=
   | CloseSend =>
     match s.(mu) with
     | None =>
-      mkSt s.(err) true s.(term) s.(mu) s.(pending) s.(rname) s.(phase_of) s.(fired) s.(rd) s.(seen)
+      mkSt s.(err) true s.(term) s.(mu) s.(pending) s.(rname) s.(req_of) s.(phase_of) s.(fired) s.(rd) s.(seen)
            s.(buf) s.(out_open) false s.(alive) s.(aborted) s.(noticed) s.(status) s.(wait_ret)
     | Some _ => s
     end
   | Stop =>
-    mkSt s.(err) s.(closed) true s.(mu) s.(pending) s.(rname) s.(phase_of) s.(fired) s.(rd) s.(seen)
+    mkSt s.(err) s.(closed) true s.(mu) s.(pending) s.(rname) s.(req_of) s.(phase_of) s.(fired) s.(rd) s.(seen)
          s.(buf) s.(out_open) s.(in_open) s.(alive) true s.(noticed) s.(status) s.(wait_ret)
   | Wait =>
     match s.(rd) with
     | RDone =>
-      mkSt s.(err) s.(closed) s.(term) s.(mu) s.(pending) s.(rname) s.(phase_of) s.(fired) s.(rd) s.(seen)
+      mkSt s.(err) s.(closed) s.(term) s.(mu) s.(pending) s.(rname) s.(req_of) s.(phase_of) s.(fired) s.(rd) s.(seen)
            s.(buf) s.(out_open) s.(in_open) s.(alive) s.(aborted) s.(noticed) s.(status)
            (Some (match s.(err) with
                   | Some e => Some e
@@ -315,10 +360,14 @@ Definition is_running (s : st) : bool := negb s.(term).
 (* ====================================================================== *)
 Definition un_action (s : sx) : option action :=
   match s with
-  | L [I 0%Z; I i; B n] => Some (SendCheck (Z.to_N i) n)
+  | L [I 0%Z; I i; B n] => Some (SendCheck (Z.to_N i) n QOk)
+  | L [I 0%Z; I i; B n; I 1%Z] => Some (SendCheck (Z.to_N i) n QBad)
+  | L [I 0%Z; I i; B n; I 2%Z; I k] => Some (SendCheck (Z.to_N i) n (QFailAt (Z.to_N k)))
   | L [I 1%Z; I i] => Some (SendLock (Z.to_N i))
   | L [I 2%Z; I i] => Some (WriteOk (Z.to_N i))
-  | L [I 3%Z; I i] => Some (WriteFail (Z.to_N i))
+  | L [I 3%Z; I i] => Some (WriteFail (Z.to_N i) WClosed)
+  | L [I 3%Z; I i; I 1%Z] => Some (WriteFail (Z.to_N i) WMarshal)
+  | L [I 3%Z; I i; I 2%Z] => Some (WriteFail (Z.to_N i) WOther)
   | L [I 4%Z; B bs] => Some (COut bs)
   | L [I 5%Z] => Some CCloseOut
   | L [I 6%Z] => Some CCloseIn
@@ -337,7 +386,7 @@ Definition un_action (s : sx) : option action :=
    errNoOutcome and "some other error" apart without looking at texts *)
 Definition reason_code (r : reason) : Z := match r with RUnexp => 3 | _ => 4 end%Z.
 Definition etag_code (e : etag) : Z :=
-  match e with EClosed => 1 | EDup => 2 | EReason r => reason_code r | EStatus => 6 | ETimeout => 7 end%Z.
+  match e with EClosed => 1 | EDup => 2 | EReason r => reason_code r | EWrite => 4 | EStatus => 6 | ETimeout => 7 end%Z.
 Definition sx_ret (o : option etag) : sx := match o with None => I 0%Z | Some e => I (etag_code e) end.
 Definition sx_phase (p : phase) : sx := match p with Ret e => L [sx_ret e] | _ => L [] end.
 Definition sx_outcome (o : outcome) : sx :=
@@ -373,5 +422,41 @@ Definition run_c10_script (args : list sx) : sx :=
     ret (L [L tr; sx_final s ids])
   | _ => None end).
 
+(* ---------- c10.proc: a free-running in-process client (runInProcess, no instrumentation) ----------
+   One sender hands requests 0 .. n-1 (distinct names) to the runner one after the other.  The client
+   function reads the first r of them, answers those listed in `answers` (in that order, each with the
+   marker "r-" ++ name), reads `peek` bytes of the next request if there is one, and RETURNS - nil or an
+   error - while the sender is inside the write of request r.  Then closeSend, waitForResponses.
+   The Go side runs this freely; all its interleavings end in the state of this canonical schedule. *)
+Definition proc_script (names : list name) (r : N) (answers : list N) (failed : bool) : list action :=
+  let n := N.of_nat (length names) in
+  let nm := fun i : N => nth (N.to_nat i) names [] in
+  let ids := map N.of_nat (seq 0 (length names)) in
+  flat_map (fun i => [SendCheck i (nm i) QOk; SendLock i; WriteOk i]) (filter (fun i => i <? r) ids) ++
+  flat_map (fun j => [COut (frame (encode (nm j) (bs "r-" ++ nm j))); RStep]) answers ++
+  (if r <? n then [SendCheck r (nm r) QOk; SendLock r] else []) ++
+  [ProcExit failed false] ++
+  (if r <? n then [WriteFail r WClosed] else []) ++
+  flat_map (fun i => [SendCheck i (nm i) QOk; SendLock i]) (filter (fun i => r <? i) ids) ++
+  [RStep; RClose; RDrain; ExitNotice; CloseSend; Wait].
+
+Fixpoint distinct_bytes (l : list bytes) : bool :=
+  match l with [] => true | x :: r => negb (mem_bytes x r) && distinct_bytes r end.
+Fixpoint distinct_N (l : list N) : bool :=
+  match l with [] => true | x :: r => negb (existsb (N.eqb x) r) && distinct_N r end.
+
+(* (names) r (answers) failed peek -> (isRunning at the end, (per id: return, callbacks) done wait) *)
+Definition run_c10_proc (args : list sx) : sx :=
+  or_bad (match args with
+  | [names; r; answers; failed; _peek] =>
+    do names <- un_listof un_B names; do r <- un_N r; do answers <- un_listof un_N answers; do failed <- un_bool failed;
+    if distinct_bytes names && distinct_N answers && forallb (fun j => j <? r) answers
+       && (r <=? N.of_nat (length names)) && forallb (fun n => (0 <? N.of_nat (length n)) && (N.of_nat (length n) <? 100)) names
+    then
+      let s := run (proc_script names r answers failed) in
+      ret (L [sx_bool (is_running s); sx_final s (map N.of_nat (seq 0 (length names)))])
+    else None
+  | _ => None end).
+
 Definition c10_table : list (bytes * (list sx -> sx)) :=
-  [ (bs "c10.script", run_c10_script) ].
+  [ (bs "c10.script", run_c10_script); (bs "c10.proc", run_c10_proc) ].
